@@ -387,7 +387,7 @@ Qed.
 Lemma not_array_clean json params xs : clean (ito_not_array json params xs).
 Proof.
   unfold ito_not_array. apply clean_obind; [apply not_positions_clean|].
-  intros drop _. destruct (drop_positions 0 drop xs); apply clean_ok.
+  intros drop _. destruct (drop_positions 0 drop xs); [destruct json; [apply clean_err|apply clean_ok]|apply clean_ok].
 Qed.
 
 (* what `![ ... ]` keeps is a subsequence of the array: order is preserved *)
